@@ -211,6 +211,21 @@ Fixpoint comma_top (d : Z) (s : str) : option nat :=
       else option_map S (comma_top d r)
   end.
 Definition find_top_level_comma (s : str) : option nat := comma_top 0 s.
+(* the same scan with the depth as the i32 of the code: Panic when `depth += 1` / `depth -= 1` leaves the
+   i32 range (what a build with overflow checks does; a release build wraps instead). Proofs/C15FunsProofs.v
+   shows that below 2^31 - 1 bytes of input the range is never left, so comma_top (depth in Z) is exact. *)
+Definition i32_ok (d : Z) : bool := (-2147483648 <=? d)%Z && (d <=? 2147483647)%Z.
+Fixpoint comma_top_chk (d : Z) (s : str) : outcome (option nat) :=
+  match s with
+  | [] => Ok None
+  | b :: r =>
+      if opens b then
+        (if i32_ok (d + 1) then do x <- comma_top_chk (d + 1) r; Ok (option_map S x) else Panic)
+      else if closes b then
+        (if i32_ok (d - 1) then do x <- comma_top_chk (d - 1) r; Ok (option_map S x) else Panic)
+      else if Ascii.eqb b "," && (d =? 0)%Z then Ok (Some 0)
+      else do x <- comma_top_chk d r; Ok (option_map S x)
+  end.
 (* split_top_level: the while-let loop with &rest[..pos] and &rest[pos + 1..] *)
 Fixpoint split_top_go (fuel : nat) (rest : str) : outcome (list str) :=
   match fuel with
@@ -478,4 +493,51 @@ Definition variant_b (r : rule) (s : str) : outcome str :=
   match r with
   | RCamel => match s with [] => Ok [] | c :: rest => Ok (low c :: rest) end
   | _ => apply_to_variant_b r s
+  end.
+
+(* ================= indexing of syn sequences in the AST walkers ================= *)
+
+(* `seq[i]` on a Punctuated / Vec: panics when i is out of range *)
+Definition index_b {A} (l : list A) (i : nat) : outcome A :=
+  match nth_error l i with Some x => Ok x | None => Panic end.
+
+(* event_parser.rs extract_emit_event: which arguments are the event name and the payload
+   (emit(name, payload) / emit_to(label, name, payload)); None = the call is ignored *)
+Definition emit_select {A} (emit_to : bool) (args : list A) : outcome (option (A * A)) :=
+  if emit_to then
+    (if (3 <=? List.length args)%nat then do n <- index_b args 1; do p <- index_b args 2; Ok (Some (n, p)) else Ok None)
+  else
+    (if (2 <=? List.length args)%nat then do n <- index_b args 0; do p <- index_b args 1; Ok (Some (n, p)) else Ok None).
+
+(* command_parser.rs is_tauri_command on one attribute path (leading `::`, segments):
+   len == 2 && seg[0] == tauri && seg[1] == command || path.is_ident(command); && short-circuits *)
+Definition attr_is_command_b (leading_colon : bool) (segs : list str) : outcome bool :=
+  do qualified <-
+    (if (List.length segs =? 2)%nat then
+       do s0 <- index_b segs 0;
+       if str_eqb s0 (L "tauri") then do s1 <- index_b segs 1; Ok (str_eqb s1 (L "command")) else Ok false
+     else Ok false);
+  Ok (qualified || (negb leading_colon && match segs with [s] => str_eqb s (L "command") | _ => false end)).
+
+(* command_parser.rs is_tauri_parameter_type on a type path without generic arguments: the
+   tauri::X / tauri::ipc::X block (indexing segments[0..2]) and the fall-through on the last segment
+   (only AppHandle and WebviewWindow match without generic arguments) *)
+Definition tauri_param_plain_b (segs : list str) : outcome bool :=
+  do early <-
+    (if (2 <=? List.length segs)%nat then
+       do s0 <- index_b segs 0;
+       if str_eqb s0 (L "tauri") then
+         if (List.length segs =? 2)%nat then
+           do s1 <- index_b segs 1;
+           Ok (Some (one_of s1 ["AppHandle"; "Window"; "WebviewWindow"; "State"; "Manager"]%string))
+         else if (List.length segs =? 3)%nat then
+           do s1 <- index_b segs 1;
+           if str_eqb s1 (L "ipc") then do s2 <- index_b segs 2; Ok (Some (one_of s2 ["Request"; "Channel"]%string))
+           else Ok None
+         else Ok None
+       else Ok None
+     else Ok None);
+  match early with
+  | Some b => Ok b
+  | None => Ok (match rev segs with l :: _ => one_of l ["AppHandle"; "WebviewWindow"]%string | [] => false end)
   end.
